@@ -6,6 +6,7 @@ EarlyStopConverter, StudyConfig.to_proto/from_proto, metadata_util.*, automated_
 Post: from_proto(to_proto(x)) == x (modulo the documented lossy fields) and to_proto(from_proto(to_proto(x))) == to_proto(x).
 """
 import datetime
+import os
 
 from engine.hsupport import NoTracing, cbool, conc, finish, known, reach
 from env import bootstrap
@@ -192,7 +193,11 @@ def trial_roundtrip(kind: int, tid: int, fval: float, ival: int, sval: str, bval
   pre: 0 <= kind <= 4 and 0 < tid and len(sval) <= 1 and 0 <= n_meas <= 1 and 0 <= created_us <= 3 and 0 <= done_us <= 3
   post: _
   """
-  kind, n_meas = conc(kind, 0, 4), conc(n_meas, 0, 1)
+  kind = conc(kind, 0, 4)
+  sl = os.environ.get('VERIF_SLICE')
+  if sl is not None and kind != int(sl):
+    return True
+  n_meas = conc(n_meas, 0, 1)
   created_us, done_us = conc(created_us, 0, 3), conc(done_us, 0, 3)     # times are concrete (symbolic datetime: inconclusive)
   if not (_finite(fval) and _finite(mval)):
     return True
